@@ -836,6 +836,7 @@ int reb_integrator_whfast_init(struct reb_simulation* const r){
     if (ri_whfast->N_allocated != N){
         ri_whfast->N_allocated = N;
         ri_whfast->p_jh = realloc(ri_whfast->p_jh,sizeof(struct reb_particle)*N);
+        memset(ri_whfast->p_jh, 0, sizeof(struct reb_particle)*N); // only pos, vel and m are ever set. Keep the rest reproducible (p_jh is written to binary files and compared).
         ri_whfast->recalculate_coordinates_this_timestep = 1;
     }
     return 0;
